@@ -16,11 +16,12 @@ import (
 	"verif/harness/internal/vh"
 )
 
-var cggmpPolicies = []string{"T:2:1,2,3"}
+// stored CGGMP21 key material per curve; "N:1|2|3" is 2-of-3 as CNF: non-ideal, every holder owns two MSP rows
+var cggmpPolicies = map[string][]string{"k256": {"T:2:1,2,3", "N:1|2|3"}, "p256": {"T:2:1,2,3"}}
 
 func cggmpAvailable(curve string) []string {
 	var out []string
-	for _, p := range cggmpPolicies {
+	for _, p := range cggmpPolicies[curve] {
 		if _, err := os.Stat(keys.CggmpPath(curve, p)); err == nil {
 			out = append(out, p)
 		}
@@ -29,13 +30,15 @@ func cggmpAvailable(curve string) []string {
 }
 
 func genCggmpKeys() {
-	for i, p := range cggmpPolicies {
+	for i, p := range cggmpPolicies["k256"] {
 		if _, err := os.Stat(keys.CggmpPath("k256", p)); err != nil {
 			fmt.Fprintln(os.Stderr, "generating CGGMP21 key material (k256) for", p)
 			if err := keys.GenerateCggmp(k256.NewCurve(), "k256", p, vh.NewRng(1, "C01", "cggmpkeys", i)); err != nil {
 				fmt.Fprintln(os.Stderr, "  failed:", err)
 			}
 		}
+	}
+	for i, p := range cggmpPolicies["p256"] {
 		if _, err := os.Stat(keys.CggmpPath("p256", p)); err != nil {
 			fmt.Fprintln(os.Stderr, "generating CGGMP21 key material (p256) for", p)
 			if err := keys.GenerateCggmp(p256.NewCurve(), "p256", p, vh.NewRng(1, "C01", "cggmpkeys-p256", i)); err != nil {
@@ -64,7 +67,7 @@ func cggmpCases(seed int64, count int) []kase {
 		if len(avail) == 0 {
 			continue
 		}
-		ptxt := avail[i%len(avail)]
+		ptxt := avail[(i/2)%len(avail)]
 		p, _ := keys.ParsePolicy(ptxt)
 		q := pickQuorum(p, rng, i%5 != 4, 3, 0)
 		if q == nil {
